@@ -176,6 +176,57 @@ def load_findings(pid):
     return [e for e in json.load(open(p))['findings'] if e['property'] == pid]
 
 
+# --------------------------------------------------------------------------------------------------
+# source pins (DESIGN.md §2.2): normalised-AST hashes of every non-test nibabel source file, recorded
+# from the tree the hand-written models were written against (harness/pins.json, tools/update_pins.py).
+# A changed hash is NOT an alarm: it is recorded in the evidence (`model_source_changed`) and makes the
+# quick tier spend a bounded extra budget on further generator seeds (the correspondence is what ties
+# a hand-written model to the code, so changed code gets more of it).
+# --------------------------------------------------------------------------------------------------
+import ast as _ast
+
+
+def _strip_docstrings(tree):
+    for node in _ast.walk(tree):
+        if isinstance(node, (_ast.Module, _ast.ClassDef, _ast.FunctionDef, _ast.AsyncFunctionDef)):
+            b = node.body
+            if b and isinstance(b[0], _ast.Expr) and isinstance(b[0].value, _ast.Constant) \
+                    and isinstance(b[0].value.value, str):
+                node.body = b[1:] or [_ast.Pass()]
+    return tree
+
+
+def source_hash(path):
+    try:
+        src = open(path, encoding='utf-8').read()
+        return hashlib.sha256(_ast.dump(_strip_docstrings(_ast.parse(src)), annotate_fields=False,
+                                        include_attributes=False).encode()).hexdigest()[:20]
+    except (OSError, SyntaxError, ValueError):
+        return 'unreadable'
+
+
+def pinned_source_files(repo=None):
+    repo = repo or REPO
+    out = []
+    base = os.path.join(repo, 'nibabel')
+    for root, dirs, files in os.walk(base):
+        dirs[:] = [d for d in dirs if d not in ('tests', 'benchmarks', '__pycache__', 'data')]
+        for fn in files:
+            if fn.endswith('.py') and fn != '_version.py':
+                out.append(os.path.relpath(os.path.join(root, fn), repo))
+    return sorted(out)
+
+
+def changed_sources():
+    """relative paths of nibabel source files whose normalised AST differs from harness/pins.json"""
+    p = os.path.join(VERIF, 'harness', 'pins.json')
+    if not os.path.exists(p):
+        return []
+    pins = json.load(open(p))['files']
+    cur = {f: source_hash(os.path.join(REPO, f)) for f in pinned_source_files()}
+    return sorted(f for f in set(pins) | set(cur) if pins.get(f) != cur.get(f))
+
+
 def load_corpus(pid):
     d = os.path.join(VERIF, 'corpus', pid)
     out = []
@@ -306,6 +357,26 @@ def run_property(modname, tier, seed, replay=None):
     known_hits = {}
     cases = explore(tier)
     impl_outs = [safe_impl(mod, c) for c in cases]
+    # source changed since the models were written -> bounded extra exploration (further quick seeds)
+    changed = changed_sources()
+    escalated = 0
+    budget = float(os.environ.get('VERIF_ESCALATE_BUDGET', '120'))
+    if changed and tier == 'quick' and budget > 0:
+        t_esc = time.time()
+        seen = {(c.line, json.dumps(c.data, sort_keys=True, default=str)) for c in cases}
+        for k in range(1, 9):
+            if time.time() - t_esc > budget:
+                break
+            for c in mod.cases(random.Random((seed + 1) * 7919 + 104729 * k + int(pid[1:])), 'quick'):
+                if time.time() - t_esc > budget:
+                    break
+                ident = (c.line, json.dumps(c.data, sort_keys=True, default=str))
+                if ident in seen:
+                    continue
+                seen.add(ident)
+                cases.append(c)
+                impl_outs.append(safe_impl(mod, c))
+                escalated += 1
     with_line = [i for i, c in enumerate(cases) if c.line is not None]
     model_outs = {}
     if dok:
@@ -419,6 +490,7 @@ def run_property(modname, tier, seed, replay=None):
             'correspondence_disagreements': len(disagreements),
             'input_distribution': stats, 'samples': samples,
             'broken': [list(b) for b in broken],
+            'model_source_changed': changed, 'escalated_cases': escalated,
             'known_findings_hit': sorted(known_hits),
         },
         'assumptions': list(getattr(mod, 'ASSUMPTIONS', [])),
